@@ -178,7 +178,7 @@ def wfailLine (t : Ty) (name : B) (v : Val) (spec : String) : String :=
   let hdr := t.header H name
   let s := t.ser H name v
   let m := trues hdr.length ++ t.encMask v hdr.length
-  if spec == "devfull" then "wfail err -" else
+  if spec == "devfull" || spec == "storefull" then "wfail err -" else
   let (k, ff) := parseWSpec spec
   let kk := k.getD s.length
   let acc := s.take kk
@@ -305,6 +305,9 @@ def step (st : St) (line : String) : St × Option String :=
         (st, some ("fromhex | F " ++ showRes (fun (x : Val × Nat) => showVal x.1 ++ " " ++ toString x.2) (t.deFull H s) ++
                    " | E " ++ showRes (fun (x : EVal × Nat) => showEVal x.1 ++ " " ++ toString x.2) (t.deEps H r s)))
       | _, _ => (st, some "badval")
+  -- a type with a unit above the alignment of the loaders' regions: whether the load succeeds depends on the address of the
+  -- region (the oracle demands an alignment error or a value without any misaligned reference)
+  | ["loadu", _, _, _, _] => (st, some "ANY")
   | ["load", i, loader, flags, val] =>
       match i.toNat?.bind (st.types[·]?), flags.toNat?, parseVal val with
       | some t, some fl, some v =>
